@@ -40,6 +40,7 @@ def cases(draw, tier="quick"):
     c["delay"] = draw(st.floats(0.0, 0.9))               # fraction of P
     c["prekill"] = draw(st.sampled_from([False, False, True]))
     c["second_round"] = draw(st.booleans())
+    c["pre_silent"] = draw(st.sampled_from([0, 0, 0, 0, 0, 4, 5]))
     # the link in use is lost (by the network) at a generated instant, also between a ping and its pong
     c["kill_at"] = draw(st.one_of(st.none(), st.floats(0.0, 5.0))) if c["mode"] != "silent" else None
     # bulk data from the Leader over a slow Leader->Follower direction with a small transport buffer: the
@@ -221,6 +222,39 @@ def run_case(c):
                 return res
             reconnects += 1
             mon.wrap_connection()
+        # an aged session: that many silent-peer episodes (peer black-holed, monitor drops the link, the pair
+        # reconnects) happen before the scenario proper
+        aged = 0
+        for ep in range(c.get("pre_silent") or 0):
+            ftp = F._connection.transport if F._connection is not None else None
+            if ftp is None:
+                break
+            nd = len(mon.discs)
+            drive(case, W.clock.seconds() + 3.5 * P, hold=lambda t, ftp=ftp: ("at", 10 ** 12) if t is ftp else None,
+                  stop_when=lambda: len(mon.discs) > nd)
+            if len(mon.discs) == nd:
+                res.violate("silent", "aged session: silent-peer episode %d was not ended by the monitor within 3.5 "
+                            "intervals" % (ep + 1), input_class="silent-connection-never-dropped")
+                res.nontrivial = True
+                res.features = dict(setup="aged-episode-failed")
+                return res
+            dead = mon.discs[-1][1]
+
+            def back():
+                return all(m._connection is not None and not m._connection.transport.lost and
+                           m._connection is not dead for m in ms)
+            drive(case, W.clock.seconds() + max(3.0, 0.5 * P), stop_when=back)
+            if not back():
+                res.violate("silent", "aged session: after silent-peer episode %d the sides did not reconnect (Manager "
+                            "states %r)" % (ep + 1, [case.state_name(m) for m in ms]),
+                            input_class="no-new-generation-after-drop")
+                res.nontrivial = True
+                res.features = dict(setup="aged-episode-failed")
+                return res
+            aged += 1
+            reconnects += 1
+            mon.wrap_connection()
+        res.notes["aged_silent_episodes"] += aged
         bulk = c.get("bulk") or []
         sub_end = [None]
         if bulk:
